@@ -186,7 +186,10 @@ type c03Run struct {
 // c03Exec runs one command history on a fresh endpoint and checks the invariants.
 func c03Exec(c c03Case) (res c03Run) {
 	vsched.ResetFreeMaps()
-	vsched.FreePerm = c.World.Perm
+	// map_order 0/1: one iteration order for every small map of the run; 2/3: the order
+	// alternates from one iteration to the next (two loops over one map disagree)
+	vsched.FreePerm = c.World.Perm % 2
+	vsched.FreeAlt = c.World.Perm >= 2
 	c03InstallFaults(c.World)
 	mod := "smtp"
 	if c.World.LMTP {
@@ -621,6 +624,10 @@ func c03Worlds(thorough bool) []c03World {
 				if strings.HasPrefix(f, "vt") || f == "" {
 					perms = []int{0, 1}
 				}
+				if strings.HasSuffix(f, ":commit") || strings.HasSuffix(f, ":abort") || strings.HasSuffix(f, ":body") && strings.HasPrefix(f, "vt") {
+					// the clean-up after a failing target walks the deliveries again
+					perms = []int{0, 1, 2, 3}
+				}
 				for _, p := range perms {
 					ws = append(ws, c03World{LMTP: lmtp, Defer: df, Fault: f, Perm: p})
 				}
@@ -642,7 +649,7 @@ func c03Worlds(thorough bool) []c03World {
 func TestVerifC03(t *testing.T) {
 	r := vx.Start("C03", "sessions")
 	defer r.Finish()
-	r.Rule("explicit-state BFS over SMTP/LMTP command sequences (21 commands: greeting, MAIL valid / upper-case / refused sender / malformed / non-ASCII sender without SMTPUTF8, RCPT to target 1 / target 2 / both / upper-case / refused / malformed, DATA, DATA cut off by a disconnect in the middle of the message, DATA with too many Received fields, BDAT LAST, a non-final BDAT chunk (first half of the message; BDAT LAST then sends the rest), RSET, NOOP, QUIT, disconnect) on the real endpoint (go-smtp server over a pipe, pipeline built from configuration, two monitored targets (atomic and per-recipient), scripted check, real limits with concurrency 2 in the all/ip/source scopes), per world = {SMTP, LMTP} x {deferred, immediate sender reject} x one persistent fault (none or Start/AddRcpt/Body/status/Commit/Abort of a target, a check reject at conn/sender/rcpt/body, or a modifier error at state creation / sender / recipient / body rewriting) x map iteration order; successor = fresh endpoint + replay of the history + one command; state = protocol mirror + typestate of every target delivery; invariants: target typestate (closed exactly once, no use after close), success reply => committed on every accepted recipient's target, failure before commit => nothing committed, at session end every delivery closed and every permit returned")
+	r.Rule("explicit-state BFS over SMTP/LMTP command sequences (21 commands: greeting, MAIL valid / upper-case / refused sender / malformed / non-ASCII sender without SMTPUTF8, RCPT to target 1 / target 2 / both / upper-case / refused / malformed, DATA, DATA cut off by a disconnect in the middle of the message, DATA with too many Received fields, BDAT LAST, a non-final BDAT chunk (first half of the message; BDAT LAST then sends the rest), RSET, NOOP, QUIT, disconnect) on the real endpoint (go-smtp server over a pipe, pipeline built from configuration, two monitored targets (atomic and per-recipient), scripted check, real limits with concurrency 2 in the all/ip/source scopes), per world = {SMTP, LMTP} x {deferred, immediate sender reject} x one persistent fault (none or Start/AddRcpt/Body/status/Commit/Abort of a target, a check reject at conn/sender/rcpt/body, or a modifier error at state creation / sender / recipient / body rewriting) x map iteration order (one order for the whole run, or alternating between successive iterations for the worlds whose fault makes the pipeline walk its deliveries twice); successor = fresh endpoint + replay of the history + one command; state = protocol mirror + typestate of every target delivery; invariants: target typestate (closed exactly once, no use after close), success reply => committed on every accepted recipient's target, failure before commit => nothing committed, at session end every delivery closed and every permit returned")
 	r.Assume("a second fault is only combined in the thorough tier; TLS, AUTH and proxy-protocol paths are not driven here (AUTH: C14)")
 	if rp := r.Replay(); rp != nil {
 		var c c03Case
